@@ -193,7 +193,12 @@ func (l *Lexer) embeddedCodeToken() token.Token {
 	case ')':
 		return l.rightParenthesesToken()
 	case '"', '\'':
-		return l.newToken(token.STR, l.readString())
+		str, ok := l.readString()
+		if !ok {
+			return l.newToken(token.ILLEGAL, str)
+		}
+
+		return l.newToken(token.STR, str)
 	case '<':
 		if l.peekChar() == '=' {
 			l.tokenBegins()
@@ -443,7 +448,8 @@ func (l *Lexer) isPotentiallyLong(tok token.TokenType) bool {
 		(tok == token.CONTINUE && l.char == 'I' && l.peekChar() == 'f')
 }
 
-func (l *Lexer) readString() string {
+// readString reads a quoted string. It returns false when the closing quote is missing.
+func (l *Lexer) readString() (string, bool) {
 	quote := l.char
 	result := ""
 
@@ -452,7 +458,7 @@ func (l *Lexer) readString() string {
 
 	if l.char == quote {
 		l.readChar() // skip the last quote
-		return result
+		return result, true
 	}
 
 	pos := l.pos
@@ -469,10 +475,14 @@ func (l *Lexer) readString() string {
 
 	result = l.input[pos:l.pos]
 
+	if l.char == 0 {
+		return result, false
+	}
+
 	l.readChar() // skip the last quote
 
 	// remove slashes before quotes
-	return strings.ReplaceAll(result, "\\"+string(quote), string(quote))
+	return strings.ReplaceAll(result, "\\"+string(quote), string(quote)), true
 }
 
 func (l *Lexer) readNumber() (string, bool) {
